@@ -66,7 +66,10 @@ def ref_lp(kind, c, t, mhc=None, physical_meat=True, time_limit=60.0):
         # the scenario's input retail waste (one value for all foods), not the per-food copies made for the optimiser
         return 1 - c["inputs"]["WASTE_RETAIL"] / 100.0
 
-    SK, BKN = c["SEAWEED_KCALS"], c["BILLION_KCALS_NEEDED"]
+    # population and daily need come from the scenario inputs, not from the constants derived for the optimiser
+    POP_IN = float(c["inputs"]["POP"])
+    KD_IN = float(c["inputs"]["NUTRITION"]["KCALS_DAILY"])
+    SK, BKN = c["SEAWEED_KCALS"], POP_IN * KD_IN * 30.0 / 1e9
     store = bool(c["STORE_FOOD_BETWEEN_YEARS"])
     if SF:
         S0, ws = _s0(c), w("STORED_FOOD_WASTE_RETAIL")
@@ -176,7 +179,7 @@ def ref_lp(kind, c, t, mhc=None, physical_meat=True, time_limit=60.0):
             UB.add({V(pre + "_b", m): ratio}, inp["MAX_%s_AS_PERCENT_KCALS_BIOFUEL" % nm] / 100 * t["biofuel"].kcals[m], "share_cap_biofuel")
             if human:
                 fr = inp["MAX_%s_AS_PERCENT_KCALS_HUMANS" % nm] / 100
-                UB.add({V(pre + "_h", m): ratio}, fr * c["POP"] * c["KCALS_MONTHLY"] / 1e9, "intake_cap_initial_population")
+                UB.add({V(pre + "_h", m): ratio}, fr * BKN, "intake_cap_initial_population")
         if human:
             const = t["milk_kcals"][m] + t["greenhouse_crops"].kcals[m] + t["fish"].to_humans.kcals[m]
             cons = {}
@@ -205,7 +208,7 @@ def ref_lp(kind, c, t, mhc=None, physical_meat=True, time_limit=60.0):
                     d[k] = d.get(k, 0) - fr * v
                 UB.add(d, fr * const, "intake_cap_actual_intake")
         else:
-            band = 1e-4 if c["POP"] < 1e7 else 1e-5
+            band = 1e-4 if POP_IN < 1e7 else 1e-5
             for on, var, ratio, key in ((OG, "cr_h", 1, "outdoor_crops"), (SF, "sf_h", 1, "stored_food"), (ME, "me", 1, "meat"),
                                         (SC, "sc_h", 1, "methane_scp"), (CS, "cs_h", 1, "cellulosic_sugar"), (SW, "sw_h", SK, "seaweed")):
                 if not on:
